@@ -507,11 +507,15 @@ impl MediaStreamTrack for SampleStreamTrack {
 
             {
                 let _pop_guard = self.pop_lock.lock();
+                // Read `closed` BEFORE popping: if it was already set, every
+                // sample the sources pushed is visible to this pop, so an empty
+                // queue really is the end of the stream.
+                let closed = self.source_closed.load(Ordering::Acquire);
                 if let Some(sample) = self.queue.pop() {
                     return Ok(sample);
                 }
 
-                if self.source_closed.load(Ordering::Acquire) {
+                if closed {
                     self.ended.store(true, Ordering::SeqCst);
                     return Err(MediaError::EndOfStream);
                 }
